@@ -12,7 +12,7 @@
 //! * `program/bytes`   random byte strings through `decode_program` (the fuzz target's decoder), same oracle.
 //! The interpreter, the op enum and the model live in `c15_model.rs` (shared with the fuzz target).
 
-use super::c15_model::{decode_program, run_program, sig_op, Op, Other, ShapeSel, KINDS, N_DEGENERATE, OOR};
+use super::c15_model::{decode_program, run_program_scaled, sig_op, Op, Other, ShapeSel, KINDS, N_DEGENERATE, OOR};
 use crate::engine::{catch, decode, fail, Ctx, Hx, R};
 use crate::oracle::dd::DD;
 use compute::linalg::{
@@ -36,12 +36,15 @@ pub struct ProgCase {
     /// op kind guaranteed to occur ("enum" for the enumerated two-step programs)
     pub focus: String,
     pub ops: Vec<Op>,
+    /// entries are (distinct integers) · 2^scale
+    #[serde(default)]
+    pub scale: i32,
 }
 
 fn check_program_with(ctx: &mut Ctx, c: &ProgCase, bad: &BTreeSet<String>) -> R {
     let sub = format!("program/{}", c.focus);
-    let h = Hx::new().json(&c.ops).finish();
-    match run_program(&c.ops) {
+    let h = Hx::new().json(&c.ops).i(c.scale as i64).finish();
+    match run_program_scaled(&c.ops, c.scale) {
         Ok(st) => {
             let class = match (st.changing_nonsquare >= 3, st.reject_then_ok) {
                 (true, true) => "nonsquare>=3+reject-then-ok",
@@ -147,10 +150,12 @@ fn any_op() -> impl Strategy<Value = Op> {
 }
 
 fn program(focus: usize, maxlen: usize) -> impl Strategy<Value = ProgCase> {
-    (pvec(any_op(), 0..maxlen), op_of_kind(focus), any::<prop::sample::Index>()).prop_map(move |(mut ops, f, at)| {
+    (pvec(any_op(), 0..maxlen), op_of_kind(focus), any::<prop::sample::Index>(), 0usize..10).prop_map(move |(mut ops, f, at, sc)| {
         let pos = at.index(ops.len() + 1);
         ops.insert(pos, f);
-        ProgCase { focus: KINDS[focus].to_string(), ops }
+        // 60 % unit scale, otherwise tiny or huge entries (exact powers of two; index 0 shrinks to unit scale)
+        let scale = [0, 0, 0, 0, 0, 0, -60, -75, -300, 200][sc];
+        ProgCase { focus: KINDS[focus].to_string(), ops, scale }
     })
 }
 
@@ -244,11 +249,11 @@ fn run_programs(ctx: &mut Ctx) {
     for r in 0u8..8 {
         for c in 0u8..8 {
             for op in &singles {
-                let case = ProgCase { focus: "enum".into(), ops: vec![Op::Fresh { dst: 0, rows: r, cols: c }, op.clone()] };
+                let case = ProgCase { focus: "enum".into(), ops: vec![Op::Fresh { dst: 0, rows: r, cols: c }, op.clone()], scale: 0 };
                 ctx.check_one("program/enum", &case, check_program);
             }
             for &shape in &shapes {
-                let case = ProgCase { focus: "enum".into(), ops: vec![Op::New { dst: 0, rows: r, cols: c, shape }] };
+                let case = ProgCase { focus: "enum".into(), ops: vec![Op::New { dst: 0, rows: r, cols: c, shape }], scale: 0 };
                 ctx.check_one("program/enum", &case, check_program);
             }
         }
@@ -281,7 +286,7 @@ fn run_programs(ctx: &mut Ctx) {
             "program/bytes",
             per,
             16,
-            || pvec(any::<u8>(), 1..(4 * maxlen)).prop_map(move |b| ProgCase { focus: "bytes".into(), ops: decode_program(&b, maxlen) }),
+            || pvec(any::<u8>(), 1..(4 * maxlen)).prop_map(move |b| ProgCase { focus: "bytes".into(), ops: decode_program(&b, maxlen), scale: 0 }),
             |cx, c| check_program_with(cx, c, &bad),
         );
     }
@@ -934,6 +939,9 @@ pub fn check_pred(ctx: &mut Ctx, case: &Pred) -> R {
                 (Some(false), "shape")
             } else if x.iter().zip(y).all(|(a, b)| a.to_bits() == b.to_bits()) {
                 (Some(true), "identical")
+            } else if x.iter().zip(y).all(|(a, b)| a == b) {
+                // equal as values although not bit-identical: the two zeros (+0.0 == -0.0 has no sign to oppose)
+                (Some(true), "value-equal")
             } else if x.iter().zip(y).any(|(a, b)| (*a < 0.0 && *b > 0.0) || (*a > 0.0 && *b < 0.0)) {
                 // "never equate values of opposite sign": any magnitude, down to subnormals (signs are compared
                 // directly: a product of two tiny values underflows to ±0 and loses the sign information)
@@ -1022,6 +1030,17 @@ fn close_to_strategy() -> impl Strategy<Value = Pred> {
         // half of the negated pairs get a tiny magnitude (down to the smallest subnormal): far below every
         // tolerance, and small enough that the product of the two values underflows to zero
         const TINY: [i32; 8] = [-60, -100, -300, -538, -600, -800, -1022, -1074];
+        if variant % 5 == 0 && tiny < 6 && x.len() == y.len() {
+            // identical data in which some entries are zeros of either sign on either side (still equal as values)
+            let p = pos % n;
+            x[p] = if tiny & 1 == 0 { 0.0 } else { -0.0 };
+            y[p] = if tiny & 2 == 0 { -0.0 } else { 0.0 };
+            if n > 1 && tiny >= 4 {
+                let q = (p + 1) % n;
+                x[q] = -0.0;
+                y[q] = 0.0;
+            }
+        }
         if variant % 5 >= 3 && tiny < TINY.len() && x.len() == y.len() {
             let p = pos % n;
             let m = 2f64.powi(TINY[tiny].max(-1022)) * if TINY[tiny] < -1022 { 2f64.powi(TINY[tiny] + 1022) } else { 1.0 };
